@@ -36,6 +36,21 @@ CHECKS = {
    note="Need-more-data = jxl_render::Error with unexpected_eof(), IncompleteFrame or NotReady. Modular-only corpus plus one real file.",
    technique="exhaustive enumeration of cut positions / cut pairs x render attempts on the real decoder",
    design_ref="4/C11", engine="mc"),
+ "C06": dict(category="exploration",
+   text="For every corpus stream (multi-group, squeeze+passes, orientation, animations/layers with every blend mode and out-of-canvas crops, reference frames) and cmyk_layers.jxl: every rectangle on small images, every rectangle with corners on the per-axis critical set (group/lane boundaries) otherwise, and ALL region-request histories of length 2 over a 6-rectangle alphabet followed by a third request or 'full', every step and keyframe compared with the same rectangle of the full render within 1e-6.",
+   note="Differential (full render of the same decoder is the reference). Modular-only corpus + one real file: VarDCT-only padding logic (EPF, Gabor, upsampling, noise) is not reached.",
+   technique="exhaustive enumeration of rectangles and region-request histories, differential vs full render",
+   design_ref="4/C06", engine="mc"),
+ "C12": dict(category="exploration",
+   text="Full shape sweep W x H in {1..70}^2 (thorough adds 127..129, 255..257) x 13 transform stacks x sample patterns on 12-bit images, plus all 36 tree shapes x depths x extra-channel layouts; each stream declares 16-bit buffers only when the reference forward pass proves every intermediate fits i16; default (narrow, AVX2 kernels) decode vs force_wide_buffers (scalar i32) compared integer-exactly on every channel.",
+   note="Differential between the two buffer widths; correctness against the encoded samples is C03. Only the SIMD paths this CPU selects are reached.",
+   technique="exhaustive shape x transform sweep, differential narrow vs wide decode",
+   design_ref="4/C12", engine="mc"),
+ "C15": dict(category="exploration",
+   text="Full product of tiny images x 6 channel layouts x depths {5,8,12,16,f32} x orientations 1..8 x every crop rectangle x {interleaved, planar, stream, stream_no_alpha} x {f32,u16,u8} x write-buffer sizes {1,3,exact,oversized}; every output sample compared with the known samples moved by the EXIF coordinate map, and integer streams with the rounding rule; CMYK+alpha channel order on the real file.",
+   note="Trusted: jxlw streams carry known samples (C03), reference orientation maps written from the EXIF definitions. Spot colours excluded.",
+   technique="full-product enumeration vs reference coordinate maps and rounding rule",
+   design_ref="4/C15", engine="mc"),
 }
 NOT_YET = "check not built yet in this round (work in progress; see DESIGN.md section 10)"
 NA = {}
